@@ -385,3 +385,135 @@ fn interrupt_lost() {
         Err(e) => println!("COMPLETED: evaluation stopped with an error: {}", e),
     }
 }
+
+/// C17 (liveness form): after the host's interrupt() the evaluation neither returns an error nor a
+/// value: the target parks with nobody left to unpark it.  No scheduling is forced: the request is
+/// made while the script is in a loop of primitive calls, which is all the solver's schedule needs.
+#[test]
+fn interrupt_hang() {
+    let mut engine = Engine::new();
+    let controller = engine.get_thread_state_controller();
+    engine
+        .run("(define (busy n acc) (if (= n 0) acc (busy (- n 1) (+ acc (length (list n n))))))".to_string())
+        .unwrap();
+    let done = std::sync::Arc::new(AtomicBool::new(false));
+    let done2 = done.clone();
+    let host = std::thread::spawn(move || {
+        std::thread::sleep(Duration::from_millis(300));
+        controller.interrupt();
+        let t0 = Instant::now();
+        while t0.elapsed() < Duration::from_secs(10) {
+            if done2.load(Ordering::SeqCst) {
+                return;
+            }
+            std::thread::sleep(Duration::from_millis(20));
+        }
+        println!("OBSERVED: 10 s after interrupt() returned the evaluation has neither stopped with an error nor finished: the interrupted thread is parked and nothing will unpark it");
+        std::process::exit(3);
+    });
+    let res = engine.run("(busy 200000000 0)".to_string());
+    done.store(true, Ordering::SeqCst);
+    host.join().unwrap();
+    match res {
+        Err(e) => println!("COMPLETED: evaluation stopped with an error: {}", e),
+        Ok(_) => println!("COMPLETED: evaluation finished before the interrupt"),
+    }
+}
+
+/// C16 (no forced schedule): one world-stopping thread keeps assigning a global while the engine
+/// thread keeps spawning short-lived threads and joining them.  A watchdog reports when the whole
+/// thing stops making progress.  Only ONE thread stops the world (two concurrent stoppers are a
+/// separate, listed finding).
+#[test]
+fn stress_progress() {
+    let rounds: usize = std::env::var("VERIF_SYNC_ROUNDS").ok().and_then(|x| x.parse().ok()).unwrap_or(300);
+    let mut engine = Engine::new();
+    engine
+        .run(
+            r#"(define counter 0)
+               (define stop-flag #f)
+               (define (stopper) (if stop-flag 'done (begin (set! counter (+ counter 1)) (stopper))))
+               (define (worker) (+ 1 2))
+               (define stopper-thread #f)"#
+                .to_string(),
+        )
+        .unwrap();
+    let progress = std::sync::Arc::new(AtomicU64::new(0));
+    let p2 = progress.clone();
+    std::thread::spawn(move || {
+        let mut last = 0;
+        let mut since = Instant::now();
+        loop {
+            std::thread::sleep(Duration::from_millis(200));
+            let cur = p2.load(Ordering::SeqCst);
+            if cur == u64::MAX {
+                return;
+            }
+            if cur != last {
+                last = cur;
+                since = Instant::now();
+            } else if since.elapsed() > Duration::from_secs(12) {
+                println!("OBSERVED: no progress for 12 s after {} spawn/join rounds: a global assignment and a thread spawn/exit wait for each other", cur);
+                std::process::exit(3);
+            }
+        }
+    });
+    engine.run("(set! stopper-thread (spawn-native-thread stopper))".to_string()).unwrap();
+    for i in 0..rounds {
+        engine.run("(thread-join! (spawn-native-thread worker))".to_string()).unwrap();
+        progress.store(i as u64 + 1, Ordering::SeqCst);
+    }
+    engine.run("(set! stop-flag #t) (thread-join! stopper-thread)".to_string()).unwrap();
+    progress.store(u64::MAX, Ordering::SeqCst);
+    println!("COMPLETED: {} spawn/join rounds against a continuously assigning thread", rounds);
+}
+
+static HOLD_INTERRUPT_MID_MS: AtomicU64 = AtomicU64::new(0);
+
+fn mid_callback(id: u32, _arg: usize) {
+    if id == hook::INTERRUPT_MID {
+        let ms = HOLD_INTERRUPT_MID_MS.load(Ordering::SeqCst);
+        if ms > 0 {
+            std::thread::sleep(Duration::from_millis(ms));
+        }
+    }
+}
+
+/// C17: interrupt() is `paused := true; state := Interrupted`.  A thread leaving a primitive call
+/// between the two stores sees paused == true with state != Interrupted and parks; interrupt()
+/// does not unpark, so with no other thread around it sleeps forever.  The host is held between
+/// its two stores (hook INTERRUPT_MID) for 400 ms, which is the solver's schedule.
+#[test]
+fn interrupt_between_stores() {
+    let mut engine = Engine::new();
+    let controller = engine.get_thread_state_controller();
+    engine
+        .run("(define (busy n acc) (if (= n 0) acc (busy (- n 1) (+ acc (length (list n n))))))".to_string())
+        .unwrap();
+    let done = std::sync::Arc::new(AtomicBool::new(false));
+    let done2 = done.clone();
+    let host = std::thread::spawn(move || {
+        std::thread::sleep(Duration::from_millis(300));
+        HOLD_INTERRUPT_MID_MS.store(400, Ordering::SeqCst);
+        hook::set(Some(mid_callback));
+        controller.interrupt();
+        hook::set(None);
+        let t0 = Instant::now();
+        while t0.elapsed() < Duration::from_secs(10) {
+            if done2.load(Ordering::SeqCst) {
+                return;
+            }
+            std::thread::sleep(Duration::from_millis(20));
+        }
+        println!("EVENTS: HOST:paused:=true,T0:reads paused,T0:parks,HOST:state:=Interrupted");
+        println!("OBSERVED: 10 s after interrupt() returned the evaluation has neither stopped with an error nor finished: the target read `paused` between the two stores of interrupt(), parked, and nothing unparks it");
+        std::process::exit(3);
+    });
+    let res = engine.run("(busy 200000000 0)".to_string());
+    done.store(true, Ordering::SeqCst);
+    host.join().unwrap();
+    match res {
+        Err(e) => println!("COMPLETED: evaluation stopped with an error: {}", e),
+        Ok(_) => println!("COMPLETED: evaluation finished before the interrupt"),
+    }
+}
